@@ -82,6 +82,39 @@ def exc_name(e):
     return "other:" + type(e).__name__
 
 
+class Loose(object):
+    """A record that belongs to no container's list (record.copy()), presented
+    with the little container API the projection needs."""
+
+    def __init__(self, rec):
+        self._rec = rec
+
+    records = property(lambda self: [self._rec])
+
+    def get_records(self, cls=None):
+        return [self._rec] if cls is None or isinstance(self._rec, cls) else []
+
+    def get_record(self, x):
+        return []
+
+    namespaces = property(lambda self: self._rec.bundle.namespaces)
+
+    def get_default_namespace(self):
+        return self._rec.bundle.get_default_namespace()
+
+    identifier = None
+    bundles = ()
+
+    def is_document(self):
+        return False
+
+    def is_bundle(self):
+        return False
+
+    def valid_qualified_name(self, x):
+        return self._rec.bundle.valid_qualified_name(x)
+
+
 class World(object):
     """Live objects of one behaviour, addressed by the spec's handle names."""
 
@@ -127,6 +160,9 @@ class World(object):
     def parents(self):
         out = {}
         for k, c in self.h.items():
+            if isinstance(c, Loose):
+                out[k] = self.handle_of(c._rec.bundle) or ""
+                continue
             d = c.document if c.is_bundle() else None
             out[k] = (self.handle_of(d) or "") if d is not None else ""
         return out
@@ -201,7 +237,7 @@ class World(object):
         con = {}
         for k, c in self.h.items():
             p = proj_container(c, self.voc)
-            p["kind"] = "doc" if c.is_document() else "bun"
+            p["kind"] = "doc" if c.is_document() else ("loose" if isinstance(c, Loose) else "bun")
             ident = c.identifier
             p["id"] = uri_segs(ident.uri) if ident is not None else []
             p["bundles"] = [self.handle_of(b) for b in c.bundles] if c.is_document() else []
@@ -319,6 +355,13 @@ class World(object):
             r = self.rec(a["r"])
             v = self.value(a["v"])
             return const(lambda: r.add_asserted_type(v))
+        if op == "CopyRec":
+            r = self.rec(a["r"])
+
+            def run():
+                self.h[a["out"]] = Loose(r.copy())
+                return none
+            return run
         if op == "AddRecord":
             c = self.h[a["h"]]
             r = self.rec(a["r"])
@@ -361,6 +404,7 @@ class World(object):
         if op == "Update":
             o = self.h[a["other"]]
             obs = [(self.handle_of(b), b.identifier) for b in o.bundles]
+            before = list(c.bundles)
 
             def run():
                 try:
@@ -369,7 +413,10 @@ class World(object):
                     if c.is_document():
                         for (bh, bid) in obs:
                             for nb in c.bundles:
-                                if nb.identifier == bid and self.handle_of(nb) is None:
+                                # (a bundle object that already has a handle is aliased
+                                # by the library; it gets the spec's handle as well)
+                                if nb.identifier == bid and (a["h"] + "+" + bh) not in self.h \
+                                        and all(nb is not x for x in before):
                                     self.h[a["h"] + "+" + bh] = nb
                 return none
             return run
@@ -383,7 +430,7 @@ class World(object):
                     c.add_bundle(arg, ident)
                 finally:
                     for nb in c.bundles:
-                        if self.handle_of(nb) is None and all(nb is not x for x in before):
+                        if nb is not arg and all(nb is not x for x in before):
                             self.h[a["out"]] = nb
                 return none
             return run
@@ -397,12 +444,12 @@ class World(object):
                     r = c.unified()
                 else:
                     r = ProvDocument(records=c.get_records())
-                if self.handle_of(r) is None:
+                if r is not c:
                     self.h[a["out"]] = r
                     if op == "Unified" and r.is_document():
                         for (bh, bid) in srcb:
                             for nb in r.bundles:
-                                if nb.identifier == bid and self.handle_of(nb) is None:
+                                if nb.identifier == bid and (a["out"] + "+" + bh) not in self.h:
                                     self.h[a["out"] + "+" + bh] = nb
                 return none
             return run
